@@ -44,6 +44,33 @@ def directed_payload():
     return out, len(texts)
 
 
+def single_character_payload(thorough):
+    """One code point alone, after a name / digit and in front of them: an identifier-start or -continue table entry that
+    the other table does not know makes the lexer emit empty tokens for ever (or panic). Quick: both sides of every
+    general-category change and every 61st code point; thorough: every code point."""
+    import unicodedata
+    cps = set()
+    prev = None
+    for c in range(0x110000):
+        cat = unicodedata.category(chr(c))
+        if cat != prev:
+            cps.update((c - 1, c))
+            prev = cat
+    cps.update(range(0, 0x110000, 1 if thorough else 61))
+    cps.update([0x309B, 0x309C, 0x1885, 0x1886, 0x2118, 0x212E, 0xB7, 0x387, 0x1369, 0x19DA, 0x2E2F, 0xFE0F, 0x200C, 0x200D, 0xFF3F, 0x203F])
+    texts = []
+    for c in sorted(cps):
+        if c < 0 or 0xD800 <= c <= 0xDFFF:
+            continue
+        ch = chr(c)
+        texts += [ch, "a" + ch, ch + "1", "match " + ch + ":"]
+    out = b""
+    for t in ["\x00VERBATIM"] + texts:
+        b = t.encode("utf-8")
+        out += str(len(b)).encode() + b"\n" + b
+    return out, len(texts)
+
+
 def seeds_payload(seed, n, maxlen):
     rng = core.rng_for(seed, "c03-seeds")
     texts = []
@@ -299,6 +326,10 @@ def run(res):
         for j in range(0, ndirected, chunk):
             jobs.append((CHK if rep % 2 == 0 else REL, seed + 21 + rep, j, min(chunk, ndirected - j), 400, 8192, payload_directed))
     res.cover["directed_nested_parser_error_seeds"] = ndirected
+    payload_chars, nchars = single_character_payload(thorough)
+    for j in range(0, nchars, 8000):
+        jobs.append((CHK if (j // 8000) % 2 == 0 else REL, seed + 31, j, min(8000, nchars - j), 400, 8192, payload_chars))
+    res.cover["single_character_inputs"] = nchars
     parts = core.pmap(_fuzz_job, jobs, init=tw.init_state, initargs=(bins,))
     for p in parts:
         res.merge(p)
